@@ -2007,6 +2007,62 @@ def run_glue(ck, hbin, cmpst, rng):
     return bad
 
 
+# ---------------------------------------------------------------------------------- InformedStateSampler: allocation and the uninformed calls
+def run_wrappers(ck, hbin, cmpst, rng):
+    """InformedStateSampler(probDefn, maxNumberCalls, costFunc) must wrap what the OBJECTIVE allocates (path length -> the direct sampler,
+    the base-class default -> the rejection sampler) with maxNumberCalls forwarded; sampleUniformNear / sampleGaussian are "not informed":
+    exactly the wrapper's own default sampler (seeded twin), never the informed sampler, result inside the bounds (and within the distance)."""
+    bad = 0
+    for si in range(2 if ck.tier == "quick" else 10):
+        r = rng.fork("wrap%d" % si)
+        P = gen_problem(r, "rv")
+        lo, hi, n = P["lo"], P["hi"], P["n"]
+        script = [HDR % (1 + r.below(10 ** 6))] + prob_lines(P)
+        want = []
+        for sk in ("direct", "rej"):
+            script.append("mk %s %d %s" % (sk, r.choice([1, 5, 100]), f2bits(0.0)))
+            want.append(None)
+            for obj, kind in (("pl", "direct"), ("int", "rej")):
+                it = r.choice([0, 1, 7, 100, 4096])
+                script.append("issalloc %s %d" % (obj, it))
+                want.append("issalloc kind=%s iters=%d has=%d" % (kind, it, 1 if kind == "direct" else 0))
+            for j in range(8):
+                near = [r.choice([lo, hi, lo + (hi - lo) * r.unit()]) if r.chance(1, 3) else lo + (hi - lo) * r.unit() for _ in range(n)]
+                par = r.choice([0.0, 1e-300, 1e-9 * (hi - lo), 0.1 * (hi - lo), hi - lo, 1e6 * (hi - lo)])
+                op = "issn" if j % 2 == 0 else "issg"
+                script.append("%s %d %s %s" % (op, 1 + r.below(10 ** 6), f2bits(par), vb(near)))
+                want.append("%s fwd=1 within=1 inb=1" % op)
+        impl, rc, err, model = ck.run_pair(hbin, DRIVER, script)
+        impl = impl or []
+        ck.traces_validated += 1
+        ck.count("scripts:wrappers")
+        if rc != 0 or len(impl) != len(script) - 1:
+            ck.report({"engine": "phs", "class": "harness-failure", "what": "wrapper run stopped early"}, script=script[:len(impl) + 2],
+                      observed=impl[-2:] + [str(rc), (err or "")[-800:]])
+            return bad + 1
+        for i, w_ in enumerate([None] * 3 + want):   # 3 problem lines (space / starts / goals) precede
+            if w_ is None:
+                continue
+            o = impl[i]
+            ln = script[1 + i]
+            ck.case(("wrap", si, ln), True)
+            ck.count("op:" + ln.split()[0])
+            if o != w_:
+                ck.report({"engine": "phs", "class": "informed-state-sampler-wrapper", "what": "%s answered %r, expected %r" % (ln.split()[0], o, w_)},
+                          script=script[:i + 2], observed=[o], expected=[w_])
+                ck.log("wrapper oracle failure on %s: %s" % (ln[:60], o))
+                bad += 1
+            elif i >= len(model) or model[i] != o:
+                ck.disagreements += 1
+                ck.report({"engine": "phs", "class": "correspondence", "what": "wrapper: implementation %r, model %r" % (o, model[i] if i < len(model) else "<missing>")},
+                          script=script[:i + 2], expected=[model[i] if i < len(model) else "<missing>"], observed=[o], found_input=False,
+                          obligation="correspondence phs (InformedStateSampler wrapper)")
+                bad += 1
+            if bad >= 3:
+                return bad
+    return bad
+
+
 # ---------------------------------------------------------------------------------- the check
 def corpus():
     d = os.path.join(core.VERIF, "corpus", "C15")
@@ -2182,6 +2238,8 @@ def run(ck):
         bad += run_sup(ck, hbin, cmpst, ck.rng.fork("sup"))
     if bad < 3:
         bad += run_glue(ck, hbin, cmpst, ck.rng.fork("glue"))
+    if bad < 3:
+        bad += run_wrappers(ck, hbin, cmpst, ck.rng.fork("wrappers"))
     if bad < 3:
         bad += run_warm(ck, hbin, ck.rng.fork("warm"))
     if bad < 3:
